@@ -217,6 +217,21 @@ def run_engine(eng, pid, tier, outdir):
         if eng == "fwd":
             import fwd
             return fwd.run(REPO, tier, outdir)
+        if eng == "bounded":
+            import replay
+            t0 = time.time()
+            found, note, ntried = replay.search(pid, REPO, tier, SEED, budget_s=60 if tier == "quick" else 600)
+            if note and not found:
+                return {"engine": "bounded", "status": "undecided", "reason": note, "obligations": [], "assumptions": [], "bounded": True}
+            ob = {"name": "bounded stand-in: public-API replay bank for %s vs. Python integers (%d cases, operands up to %d digits, seed %d)" % (
+                pid, ntried, 520 if tier == "thorough" else 258, SEED), "status": "failed" if found else "discharged", "model": found,
+                "detail": "BOUNDED, not a proof: stands in for the functions whose contracts are assumed (see trusted_base)"}
+            return {"engine": "bounded", "status": "failed" if found else "pass", "reason": None, "obligations": [ob], "bounded": True,
+                    "n_obligations": 1, "n_discharged": 0 if found else 1, "wall_s": round(time.time() - t0, 2),
+                    "detail": {"cases": ntried, "failing_input": found, "bound": "public API only; lengths and patterns of tools/replay.py bank(); not exhaustive"},
+                    "cmd": "tools/replay.py bank(%s) through replay/driver" % pid,
+                    "assumptions": ["bounded stand-in: Python integer arithmetic is the oracle; the bank is finite (stated in evidence.engines[].detail)"],
+                    "samples": [ob["name"]]}
         if eng.startswith("kani:"):
             import kanirun
             return kanirun.run(REPO, eng.split(":", 1)[1], tier, outdir)
@@ -277,6 +292,7 @@ def finish(pid, tier, spec, units, results, engines, known, t0):
                 if fn["kind"] == "extract" and len(samples) < 6:
                     samples.append("%s::%s ensures/invariants discharged by Verus (%s obligations)" % (u, fn["label"], fn.get("n_obligations")))
     eng_recs = []
+    bounded_failures = []
     for eng, r in engines.items():
         eng_recs.append({k: r.get(k) for k in ("engine", "status", "reason", "n_obligations", "n_discharged", "wall_s", "detail", "bounded")})
         if r.get("status") == "undecided":
@@ -289,6 +305,8 @@ def finish(pid, tier, spec, units, results, engines, known, t0):
         for ob in r.get("obligations", []):
             if ob.get("status") == "failed":
                 failures.append(("%s / %s" % (eng, ob["name"]), eng, ob))
+                if r.get("bounded"):
+                    bounded_failures.append(ob)
         for s in r.get("samples", [])[:3]:
             samples.append(s)
         if r.get("cmd"):
